@@ -1,6 +1,9 @@
 use crate::ctx::Ctx;
 
 pub mod c01;
+pub mod c02;
+pub mod c04;
+pub mod c06;
 
 /// Instantiates a generic scenario function for a named (key, value) pair of the element menu.
 #[macro_export]
@@ -31,9 +34,34 @@ pub const PAIRS: [&str; 14] = [
     "P8xP8", "T24xT24", "B1xB1", "B1xZ", "B2xZ", "B3xZ", "B3xB1", "B6xZ", "P8xT24", "T24xZ", "L200xB1", "A64xP8", "P8xA64", "ZxT24",
 ];
 
+/// Instantiates a generic scenario function for a named element type.
+#[macro_export]
+macro_rules! for_elem {
+    ($name:expr, $f:ident ( $($arg:expr),* )) => {{
+        use $crate::elem::*;
+        match $name {
+            "Z" => $f::<Z>($($arg),*),
+            "B1" => $f::<B1>($($arg),*),
+            "B2" => $f::<B2>($($arg),*),
+            "B3" => $f::<B3>($($arg),*),
+            "B6" => $f::<B6>($($arg),*),
+            "P8" => $f::<P8>($($arg),*),
+            "T24" => $f::<T24>($($arg),*),
+            "L200" => $f::<L200>($($arg),*),
+            "A64" => $f::<A64>($($arg),*),
+            other => panic!("unknown element {}", other),
+        }
+    }};
+}
+
+pub const ELEMS: [&str; 9] = ["Z", "B1", "B2", "B3", "B6", "P8", "T24", "L200", "A64"];
+
 pub fn dispatch(c: &mut Ctx) -> bool {
     match c.prop.as_str() {
         "C01" => c01::run(c),
+        "C02" => c02::run(c),
+        "C04" => c04::run(c),
+        "C06" => c06::run(c),
         _ => return false,
     }
     true
